@@ -2,7 +2,7 @@
 # copy a confirmed seed into /verif/seeded/<name>/ and run all quick checks against it
 id=$1; name=${2:-$1}
 mkdir -p /verif/seeded/$name
-cp /tmp/seed/$id.out/patch.diff /verif/seeded/$name/patch.diff
-cp /tmp/seed/$id.out/demo.rs /verif/seeded/$name/demo.rs
-cp /tmp/seed/$id.out/notes.md /verif/seeded/$name/notes.md 2>/dev/null
+cp ${SEEDBASE:-/tmp/seed}/$id.out/patch.diff /verif/seeded/$name/patch.diff
+cp ${SEEDBASE:-/tmp/seed}/$id.out/demo.rs /verif/seeded/$name/demo.rs
+cp ${SEEDBASE:-/tmp/seed}/$id.out/notes.md /verif/seeded/$name/notes.md 2>/dev/null
 /verif/tools/try_patch.sh /verif/seeded/$name/patch.diff 2>&1 | tee /verif/seeded/$name/detection.txt | grep -v "exit 0"
